@@ -74,10 +74,10 @@ def run_case(case):
         v.witness.setdefault("run", {k: run[k] for k in ("cfg", "shapes", "T", "presence_kind", "edits", "grad_scale", "grad_kind")})
         raise
     except Exception as e:  # noqa
-        if type(e).__name__ == "PreconditionerValueError" and obs.nonfinite_from_finite:
-            counters["aborted_lapack_returned_nonfinite"] = 1
-        else:
+        why = c01.classify_abort(e, run, obs)
+        if why is None:
             raise
+        counters[why] = 1
     counters["evals"] = counters.get("block_steps", 0)
     cfg = run["cfg"]
     nontrivial = counters.get("basis_qr_matched", 0) >= 2 or (cfg["precond"]["solver"]["type"] == "eigh" and counters.get("basis_checks", 0) >= 3)
